@@ -126,9 +126,9 @@ class Solver:
             if q is None:
                 continue
             lines.append("(push 1)")
+            lines.append('(echo "Q%d")' % i)   # first, so that an (error ...) line lands in this query's chunk
             for a in q:
                 lines.append("(assert %s)" % a)
-            lines.append('(echo "Q%d")' % i)
             lines.append("(check-sat)")
             if models:
                 lines.append("(get-value (x y))")
@@ -160,7 +160,8 @@ class Solver:
             if pre_err or "(error" in c or i not in got:
                 res.append(["error", None])
                 continue
-            st = (c.strip().split("\n") or ["?"])[0].strip()
+            words = [w.strip() for w in c.strip().split("\n") if w.strip() in ("sat", "unsat", "unknown")]
+            st = words[-1] if words else "?"
             res.append([st if st in ("sat", "unsat") else "unknown", None])
         need = [q if (res[i][0] == "sat" and want_models and want_models[i]) else None for i, q in enumerate(queries)]
         if any(q is not None for q in need):
